@@ -80,7 +80,7 @@ def run(a):
                 c.cov["input_distribution"] = st
                 m = c.run_model(exe, ops)
                 if m:
-                    c.diff(ops, impl, m, stateful=True, hbin=hbin, exe=exe)
+                    c.diff(ops, impl, m, stateful=True, hbin=hbin, exe=exe, fail_first=True)
                     c.cov["programs"] = sum(v for k, v in st.items() if k.startswith("schedule:")) + st.get("random-case", 0)
                     c.cov["exhaustive"] = "schedules of <= 3 (quick) / 4 (thorough) callers at start/issue/arrive granularity"
         c.prove("ClientGoVerif.Props.C13")
@@ -117,5 +117,5 @@ def replay(a):
             print(o)
         else:
             print(f"{o}\n   impl : {i}\n   model: {mm}")
-    c.diff(ops, impl, m, stateful=True, hbin=hbin, exe=exe)
+    c.diff(ops, impl, m, stateful=True, hbin=hbin, exe=exe, fail_first=True)
     return c.finish()
